@@ -885,7 +885,37 @@ impl<'a, 'b> GeneratorState<'a> {
             _ => (),
         };
 
+        let y_was_saved = self.saved_y;
         let expr = self.generate_expr(condition, pos, false, false)?;
+        if self.saved_y && !y_was_saved {
+            // Y was parked in cctmp for the evaluation of this condition. Both ways out of the branch
+            // need it back: fetch the value, restore Y (which changes the flags) and test A
+            match &expr {
+                ExprType::A(_) => (),
+                ExprType::AbsoluteX(_) | ExprType::AbsoluteY(_) | ExprType::Absolute(_, true, _)
+                    if !self.acc_in_use =>
+                {
+                    self.asm(LDA, &expr, pos, false)?;
+                }
+                _ => {
+                    return Err(self.compiler_state.syntax_error(
+                        "Code too complex for the compiler. Please split line into several statements",
+                        pos,
+                    ))
+                }
+            }
+            self.asm_restore_y();
+            self.saved_y = false;
+            self.asm(CMP, &ExprType::Immediate(0), pos, false)?;
+            self.acc_in_use = false;
+            self.flags = FlagsState::Unknown;
+            if negate {
+                self.asm(BEQ, &ExprType::Label(label.into()), pos, false)?;
+            } else {
+                self.asm(BNE, &ExprType::Label(label.into()), pos, false)?;
+            }
+            return Ok(None);
+        }
         if flags_ok(&self.flags, &expr) {
             if let ExprType::A(_) = expr {
                 self.acc_in_use = false;
